@@ -731,6 +731,100 @@ def run_aromatic_frame(shard):
     return acc
 
 
+def run_exhaustive_single(shard):
+    """one_shot=False with a single-pattern template (halide -> alcohol) on several input molecules: the reported product sets are exactly the non-empty subsets of the
+    match sites (every molecule can react, any number of times, in any combination), independent of the order of the inputs"""
+    from chython import smiles, smarts, Reactor, MoleculeContainer
+    acc = Acc()
+    cases = [('CBr', 'CCBr'), ('CBr', 'CCBr', 'CCCBr'), ('BrCCBr', 'CBr'), ('BrCCBr',), ('CBr', 'CBr'), ('CCBr', 'CCO'), ('BrCC(Br)CBr',), ('ClCBr', 'CCBr')]
+    rx = Reactor((smarts('[C:1][Br:2]'),), (smarts('[A:1][O:2]'),), one_shot=False, polymerise_limit=6)
+    for case in cases:
+        for order in sorted(set(itertools.permutations(range(len(case))))):
+            acc.states += 1
+            mols = _disjoint([case[i] for i in order])
+            tag = 'exhaustive single pattern | %s | order %s' % (' + '.join(case), list(order))
+            try:
+                rs = list(itertools.islice(rx(*[m.copy() for m in mols]), 300))
+            except Exception as e:
+                acc.fail('reactor raised %s :: exhaustive single pattern' % type(e).__name__, case=tag)
+                continue
+            acc.transitions += 1 + len(rs)
+            # reference: every non-empty subset of C-Br sites turned into C-O
+            u = _union(mols)
+            sites = [(n, k) for n, k, b in u.bonds() if {u.atom(n).atomic_symbol, u.atom(k).atomic_symbol} == {'C', 'Br'}]
+            sites = [(n, k) if u.atom(k).atomic_symbol == 'Br' else (k, n) for n, k in sites]
+            exp = set()
+            for r_ in range(1, len(sites) + 1):
+                for sub in itertools.combinations(sites, r_):
+                    atoms, bonds = plain(u)
+                    for c_, br in sub:
+                        atoms[br] = ['O', None, 0, False]
+                    exp.add(tuple(sorted(format(x, 'h') for x in _build_plain(atoms, bonds).split())))
+            got = set()
+            for r in rs:
+                nums = [n for mm in r.products for n in mm]
+                if len(nums) != len(set(nums)):
+                    acc.fail('duplicate atom numbers among the products of a reaction :: exhaustive single pattern', case=tag, got=str(r))
+                    break
+                got.add(tuple(sorted(format(x, 'h') for mm in r.products for x in mm.split())))
+            else:
+                if got != exp:
+                    acc.fail('exhaustive mode does not report exactly the non-empty subsets of the reaction sites :: single pattern', case=tag,
+                             missing=sorted(map(list, exp - got))[:3], extra=sorted(map(list, got - exp))[:3], got=len(got), expected=len(exp))
+            acc.outcomes[(case, len(exp))] += 1
+    acc.sample({'cases': [list(c) for c in cases[:4]], 'template': '[C:1][Br:2] >> [A:1][O:2], one_shot=False'})
+    return acc
+
+
+STEREO_REPL = [
+    # (pattern, source, [spellings of ONE replacement], is_molecule)
+    ('[C;D1:1]=[C;D2:2]', 'C=CC', ['[A:1]1O[A;@:2]1', '[A;@:2]1(O[A:1]1)', 'O1[A:1][A;@@:2]1'], False),
+    ('[C;D1:1]=[C;D2:2]', 'C=CCC', ['[A:1]1O[A;@@:2]1', '[A;@@:2]1(O[A:1]1)'], False),
+    ('[C;D2:1]Br', 'CCBr', ['[CH3:1][C@:2]1([F:3])[O:4][CH2:5][CH2:6]1', '[CH2:5]1[O:4][C@:2]([CH3:1])([F:3])[CH2:6]1', '[CH2:6]1[CH2:5][O:4][C@:2]1([CH3:1])[F:3]',
+                             '[F:3][C@:2]1([CH3:1])[CH2:6][CH2:5][O:4]1'], True),
+    ('[C;D2:1]Br', 'CCCBr', ['[CH3:1][C@@:2]([F:3])([Cl:4])[OH:5]', '[F:3][C@:2]([CH3:1])([Cl:4])[OH:5]', '[OH:5][C@@:2]([Cl:4])([F:3])[CH3:1]'], True),
+    ('[C:1][O;D1:2]', 'CCO', ['[A:1][A:2][C@:3]1([F:4])[O:5][C:6]1', '[C:6]1[O:5][C@@:3]1([F:4])[A:2][A:1]', '[F:4][C@:3]1([A:2][A:1])[C:6][O:5]1'], False),
+]
+
+
+def run_stereo_replacement(shard):
+    """a configuration requested by the replacement does not depend on how the replacement is spelled (labelled atom opening or closing a ring of the replacement,
+    substituent order): every spelling of one replacement gives the same product, with a label on the new centre"""
+    from chython import smiles, smarts, Transformer, Reactor
+    from rdkit import Chem, RDLogger
+    RDLogger.DisableLog('rdApp.*')
+    acc = Acc()
+    for pat, src, spellings, is_mol in STEREO_REPL:
+        for engine in ('Transformer', 'Reactor'):
+            outs = {}
+            for sp in spellings:
+                acc.states += 1
+                acc.transitions += 1
+                tag = 'stereo replacement | %s >> %s | %s | %s' % (pat, sp, src, engine)
+                try:
+                    repl = smiles(sp) if is_mol else smarts(sp)
+                    if engine == 'Transformer':
+                        prods = [str(x) for x in Transformer(smarts(pat), repl)(smiles(src))]
+                    else:
+                        prods = [str(x) for r in Reactor((smarts(pat),), (repl,))(smiles(src)) for x in r.products]
+                except Exception as e:
+                    acc.fail('template with a stereo label in the replacement raised %s' % type(e).__name__, case=tag)
+                    continue
+                if len(prods) != 1:
+                    acc.fail('template with a stereo label in the replacement: number of products != 1', case=tag, got=prods)
+                    continue
+                if '@' not in prods[0]:
+                    acc.fail('stereo label requested by the replacement is missing in the product', case=tag, got=prods[0])
+                    continue
+                rd = Chem.MolFromSmiles(prods[0])
+                outs[sp] = Chem.MolToSmiles(rd) if rd is not None else prods[0]
+            if len(set(outs.values())) > 1:
+                acc.fail('spellings of one replacement give different stereoisomers :: %s' % engine, case='stereo replacement | %s | %s' % (pat, src), got={k: v for k, v in outs.items()})
+            acc.outcomes[(pat, engine, len(set(outs.values())))] += 1
+    acc.sample({'replacements': [s[2][0] for s in STEREO_REPL]})
+    return acc
+
+
 FWD_NAMES = ['amidation', 'amine_isocyanate', 'buchwald_hartwig', 'esterification', 'macmillan', 'reductive_amination', 'songashira', 'sulfonamidation', 'suzuki_miyaura']
 RETRO_NAMES = ['amidation', 'aryl_amination', 'mitsunobu', 'sonogashira', 'suzuki_miyaura']
 
@@ -740,6 +834,8 @@ def plan(tier, seed):
             Stage('multi-reactant Reactor', run_reactor, [(k, 4, tier) for k in range(4)], '4 reactions x 6 reactant pairs x spectators x all reactant orders x renumbering x one_shot on/off; colliding atom numbers'),
             Stage('built-in deprotection templates', run_builtin, [(k, 16, tier) for k in range(16)], 'every deprotection group + apply_all x protected molecules x 2 numberings: unique numbers, valence validity, numbering independence'),
             Stage('frame condition on aromatic molecules', run_aromatic_frame, [0], '4 side-chain templates x 14 aromatic N-H heterocycles in aromatic form x 2 numberings x aromatic post-processing on/off: unnamed atoms keep hydrogens, ring bonds keep orders'),
+            Stage('exhaustive mode, single pattern', run_exhaustive_single, [0], 'halide -> alcohol, one_shot=False, on 8 input tuples x every order of the inputs: product sets = non-empty subsets of the reaction sites'),
+            Stage('stereo label in the replacement', run_stereo_replacement, [0], '5 replacements (query and molecule; new centres in rings and chains) x 2-4 spellings x Transformer / Reactor: one stereoisomer per replacement'),
             Stage('synthetic multi-reactant Reactor vs edit model', run_reactor_model, [0], '4 reactions x 12 ordered reactant pairs x spectator x automorphism filter: set of reactions = edit model over every combination of matches'),
             Stage('prepared reaction collections vs edit model', run_prepared, [('fwd', n, tier) for n in FWD_NAMES] + [('retro', n, tier) for n in RETRO_NAMES],
                   '9 forward + 5 retro collections (53 reactors) x every tuple of pool molecules matching the patterns: reactions = edit model over every combination of matches; '
@@ -754,6 +850,10 @@ def replay(rec):
         kind = 'fwd' if d.startswith('reactions') else 'retro'
         name = d.split('.')[1].split('[')[0]
         accs = [run_prepared((kind, name, 'thorough'))]
+    elif 'stereo replacement' in case:
+        accs = [run_stereo_replacement(0)]
+    elif 'exhaustive single pattern' in case:
+        accs = [run_exhaustive_single(0)]
     elif 'fix_aromatic_rings=' in case:
         accs = [run_aromatic_frame(0)]
     elif 'synthetic ' in key:
